@@ -318,3 +318,112 @@ Proof.
   - intros w Hw Hwo. destruct (I_wrote s I w Hw Hwo) as (b0 & r0 & Eh & Hd0). exists b0, r0. split; [assumption|].
     unfold upd. destruct (bid_eqb b0 b); [reflexivity|assumption].
 Qed.
+
+(* ------------------------------------------------------------------ allocation failure *)
+Lemma inv_alloc_failed s t r : Inv s -> stopped s = false -> curr s t = None -> Inv (alloc_failed s t r).
+Proof.
+  intros I Es Hc. unfold alloc_failed.
+  assert (Hcl : forall t', match updt (curr s) t None t' with Some i => [(t', i)] | None => [] end = curr_l s t')
+    by (intro; apply curr_l_updt_none; assumption).
+  set (s' := set_plog _ _).
+  assert (Hch : forall t', chain s' t' = chain s t').
+  { intro t'. unfold chain, pend, curr_l, s'; sp. rewrite Hcl. reflexivity. }
+  assert (Hem : forall t', emitted s' t' = emitted s t').
+  { intro t'. unfold emitted, s'; sp. unfold updt. destruct (Nat.eqb_spec t' t) as [->|]; [|reflexivity].
+    rewrite emitted_of_app. cbn. apply app_nil_r. }
+  destruct (frame_buffers_e s s' I Hch) as (A & B & C); try assumption; try reflexivity.
+  apply Inv_intro; try (unfold s'; sp; apply I).
+  - exact (conj A (conj B (conj C (conj (I_idle s I) (conj (I_wt s I) (conj (I_one s I) (I_wrote s I))))))).
+  - intros _ t'. unfold curr_l, s'; sp. rewrite Hcl. apply (I_chan s I Es).
+Qed.
+
+(* ------------------------------------------------------------------ get_new_shmem_buffer *)
+Lemma find_free_from_spec s t i k idx : find_free_from s t i k = Some idx ->
+  i <= idx < i + k /\ f_rec (flag s (t, idx)) = false.
+Proof.
+  revert i. induction k as [|k IH]; intros i H; cbn in H; [discriminate|].
+  destruct (f_rec (flag s (t, i))) eqn:E.
+  - apply IH in H. destruct H. split; [lia|assumption].
+  - injection H as <-. split; [lia|assumption].
+Qed.
+
+Lemma inv_switch s t r ok : Inv s -> stopped s = false -> curr s t = None -> Inv (switch s t r ok).
+Proof.
+  intros I Es Hc. unfold switch. destruct (find_free s t) as [idx|] eqn:F.
+  - unfold find_free in F. apply find_free_from_spec in F. destruct F as [Hr Hf].
+    apply inv_take; try assumption. lia.
+  - destruct ok; [|apply inv_alloc_failed; assumption].
+    destruct (inv_grow s t I) as (Ig & Esg & Hcg & Hng & Hfg).
+    apply inv_take; try assumption; try congruence. rewrite Hng. lia.
+Qed.
+
+(* ------------------------------------------------------------------ P_emit *)
+Lemma inv_p_emit c s s' t r ok : Inv s -> p_emit c s t r ok = Some s' -> Inv s'.
+Proof.
+  intros I H. unfold p_emit in H. destruct (p_live s t) eqn:L; [|discriminate].
+  apply p_live_spec in L. destruct L as (Hn & Hd & Es).
+  destruct (curr s t) as [i|] eqn:Hc.
+  - destruct (size s (t, i) + length r <=? maxsize c); injection H as <-.
+    + apply inv_append; assumption.
+    + change (set_curr (set_chan s (chan s ++ [MEnd (t, i)])) (updt (curr (set_chan s (chan s ++ [MEnd (t, i)]))) t None))
+        with (send_end s t i).
+      apply inv_switch; [apply inv_send_end; assumption|exact Es|].
+      unfold send_end; sp. apply updt_same.
+  - injection H as <-. apply inv_switch; assumption.
+Qed.
+
+(* ------------------------------------------------------------------ P_start *)
+Lemma inv_p_start s s' t : Inv s -> p_start s t = Some s' -> Inv s'.
+Proof.
+  intros I H. unfold p_start in H. destruct (nbuf s t =? 0) eqn:En; [|discriminate].
+  destruct (stopped s) eqn:Es; [discriminate|]. cbn [negb andb] in H. injection H as <-.
+  apply Nat.eqb_eq in En.
+  pose proof (chain_empty_unstarted s t I En) as Hc0.
+  assert (Hparts : Wq t (ws s) = [] /\ of_tid t (bwl s) = [] /\ ends t (chan s) = [] /\ curr s t = None).
+  { unfold chain, pend, curr_l in Hc0. rewrite Es in Hc0.
+    apply app_eq_nil in Hc0. destruct Hc0 as [H1 H2]. apply app_eq_nil in H2. destruct H2 as [H2 H3].
+    apply app_eq_nil in H3. destruct H3 as [H3 H4]. repeat split; try assumption.
+    destruct (curr s t); [discriminate|reflexivity]. }
+  destruct Hparts as (HW & HB & HE & Hc).
+  set (b0 := (t, 0)). set (b1 := (t, 1)).
+  set (s' := set_chan _ _).
+  assert (Hne01 : b0 <> b1) by (unfold b0, b1; congruence).
+  assert (Hnotin : forall t' x, In x (chain s t') -> x <> b0 /\ x <> b1).
+  { intros t' x Hx. destruct (I_own s I t' x Hx) as (Hf & Hl & _).
+    split; intro; subst x; cbn [fst snd b0 b1] in *; subst t'; lia. }
+  assert (Hch : forall t', chain s' t' = chain s t' ++ (if t' =? t then [b0] else [])).
+  { intro t'. unfold chain, pend, curr_l, s'; sp. rewrite Es. rewrite ends_snoc_other by (intros; discriminate).
+    unfold updt. destruct (Nat.eqb_spec t' t) as [->|Hne]; [rewrite Hc|]; rewrite <- ?app_assoc; rewrite ?app_nil_r; reflexivity. }
+  assert (Hda : forall x, data s' x = if bid_eqb x b1 then [] else if bid_eqb x b0 then [] else data s x) by reflexivity.
+  assert (Hdat : forall t' x, In x (chain s t') -> data s' x = data s x).
+  { intros t' x Hx. destruct (Hnotin t' x Hx) as [N0 N1]. rewrite Hda.
+    destruct (bid_eqb_spec x b1); [contradiction|]. destruct (bid_eqb_spec x b0); [contradiction|]. reflexivity. }
+  assert (Hflg : forall t' x, In x (chain s t') -> flag s' x = flag s x).
+  { intros t' x Hx. destruct (Hnotin t' x Hx) as [N0 N1]. unfold s'; sp. rewrite !upd_other by assumption. reflexivity. }
+  apply Inv_intro.
+  - unfold InvB. change (ws s') with (ws s). change (bwl s') with (bwl s).
+    refine (conj _ (conj _ (conj _ (conj (I_idle s I) (conj (I_wt s I) (conj (I_one s I) _)))))).
+    + intro t'. unfold content, emitted. rewrite Hch. change (file s') with (file s). change (plog s') with (plog s).
+      pose proof (I_content s I t') as E. unfold content, emitted in E. rewrite <- E. rewrite flat_map_app.
+      rewrite (flat_map_ext_in (data s') (data s) (chain s t')) by (intros; eapply Hdat; eassumption).
+      destruct (Nat.eqb_spec t' t) as [->|Hne]; cbn [flat_map]; rewrite ?app_nil_r; [|reflexivity].
+      rewrite Hda. destruct (bid_eqb_spec b0 b1); [contradiction|]. rewrite bid_eqb_refl. rewrite app_nil_r. reflexivity.
+    + intro t'. rewrite Hch. destruct (Nat.eqb_spec t' t) as [->|Hne]; [|rewrite app_nil_r; apply (I_nodup s I)].
+      rewrite Hc0. repeat constructor. tauto.
+    + intros t' x Hx. rewrite Hch in Hx. apply in_app_or in Hx. destruct Hx as [Hx|Hx].
+      * destruct (I_own s I t' x Hx) as (Hf & Hl & Hr). split; [assumption|]. split.
+        -- unfold s'; sp. unfold updt. destruct (Nat.eqb_spec t' t) as [->|]; [lia|assumption].
+        -- rewrite (Hflg t' x Hx). assumption.
+      * destruct (Nat.eqb_spec t' t) as [->|Hne]; [|destruct Hx]. destruct Hx as [<-|[]]. split; [reflexivity|]. split.
+        -- unfold s'; sp. rewrite updt_same. cbn. lia.
+        -- unfold s'; sp. rewrite upd_other by assumption. rewrite upd_same. reflexivity.
+    + intros w Hw Hwo. destruct (I_wrote s I w Hw Hwo) as (x & r0 & Eh & Hd0). exists x, r0. split; [assumption|].
+      rewrite Hda. destruct (bid_eqb x b1); [reflexivity|]. destruct (bid_eqb x b0); [reflexivity|assumption].
+  - unfold s'; sp. congruence.
+  - unfold s'; sp. intro J. rewrite (not_joined s I Es) in J. discriminate.
+  - intros _ t'. unfold curr_l, s'; sp. pose proof (I_chan s I Es t') as CK. unfold curr_l in CK.
+    unfold updt. destruct (Nat.eqb_spec t' t) as [->|Hne].
+    + rewrite Hc in CK. apply chan_ok_app_start; [reflexivity|assumption].
+    + apply chan_ok_app_other; [cbn; congruence|assumption].
+  - unfold s'; sp. rewrite chan_lost_app. cbn [chan_lost]. rewrite N.add_0_r. apply I.
+Qed.
